@@ -345,17 +345,18 @@ class Reference:
         runnable = {}
 
         def run_passes():
-            """the engine's testbench loop: scan in the order added, repeat while anything ran"""
+            """`add_testbench`: "At each point in time, all of the non-waiting testbenches are executed in the order in which they
+            were added": whenever a testbench yields, the first non-waiting one in that order runs next - also when an earlier
+            testbench has just been woken by a later one's write"""
             while runnable:
-                for i in range(n):
-                    if i in runnable:
-                        val = runnable.pop(i)
-                        if val == "start":
-                            self.log.append([i, -1, self.now, "start", None, self.snapshot()])
-                        else:
-                            self.log.append([i, pc[i], self.now, "wake", val, self.snapshot()])
-                            pc[i] += 1
-                        run_tb(i)
+                i = min(runnable)
+                val = runnable.pop(i)
+                if val == "start":
+                    self.log.append([i, -1, self.now, "start", None, self.snapshot()])
+                else:
+                    self.log.append([i, pc[i], self.now, "wake", val, self.snapshot()])
+                    pc[i] += 1
+                run_tb(i)
 
         self.round = 0
         self.edge_base = -1
